@@ -149,6 +149,34 @@ func ledgerExec1(op string) string {
 			snapAddrIndex(n)
 		}
 		return ann + " R" + errCode(err) + " " + digest(n)
+	case "execfault":
+		// the block's execution fails AFTER Unspents.ProcessBlock has run: the history record of its first input is
+		// missing for the duration of the call, so HistoryDB.ParseBlock fails and the enclosing database transaction is
+		// rolled back.  Nothing the node reports may have changed (afterwards the record is put back).
+		n := getNode(f[1])
+		b, err := decodeBlock(f[2])
+		if err != nil || len(b.Body.Transactions) == 0 || len(b.Body.Transactions[0].In) == 0 {
+			return "Rskip " + digest(n)
+		}
+		key := b.Body.Transactions[0].In[0]
+		var saved []byte
+		if err := n.db.Update("verif-fault", func(tx *dbutil.Tx) error {
+			v, err := dbutil.GetBucketValue(tx, historydb.UxOutsBkt, key[:])
+			if err != nil || v == nil {
+				return err
+			}
+			saved = v
+			return dbutil.Delete(tx, historydb.UxOutsBkt, key[:])
+		}); err != nil || saved == nil {
+			return "Rskip " + digest(n)
+		}
+		err = n.v.ExecuteSignedBlock(b)
+		if uerr := n.db.Update("verif-fault-undo", func(tx *dbutil.Tx) error {
+			return dbutil.PutBucketValue(tx, historydb.UxOutsBkt, key[:], saved)
+		}); uerr != nil {
+			panic("harness: cannot restore the history record: " + uerr.Error())
+		}
+		return "R" + errCode(err) + " " + digest(n)
 	case "injf", "inju":
 		n := getNode(f[1])
 		t, err := decodeTxn(f[2])
